@@ -18,6 +18,8 @@ FASTOR_INLINE void trivial_assign(AbstractTensor<Derived,DIM> &dst, const Abstra
         for (; i <ROUND_DOWN(src.size(),V::Size); i+=V::Size) {
             src.template eval<T>(i).store(&_data[i], dst.self().is_aligned());
         }
+        FASTOR_VERIF_ROUTE_V("assign.vector_body_elems",i);
+        FASTOR_VERIF_ROUTE_V("assign.scalar_tail_elems",src.size()-i);
         for (; i < src.size(); ++i) {
             _data[i] = src.template eval_s<T>(i);
         }
